@@ -1559,6 +1559,182 @@ pub proof fn lemma_height<K: Ord, V>(buf: Buf<K, V>, g: G, root: u32, i: int, fu
     if g.ng[i].bh > 0 { assert(pow2(g.ng[i].bh as nat) == 2 * pow2((g.ng[i].bh - 1) as nat)); }
 }
 
+
+// ---------------------------------------------------------------------------------------------
+// expiring keys (key tree flavour of the same algorithm)
+
+pub trait ExpiredKey: Copy + Ord {
+    spec fn exp_spec(&self) -> u64;
+    fn expiration(&self) -> (r: u64)
+        ensures r == self.exp_spec();
+}
+
+impl<K: Copy, V: Copy> Copy for Entity<K, V> {}
+
+pub open spec fn is_live<K: ExpiredKey, V>(e: Entity<K, V>, t: u64) -> bool { e.key.exp_spec() > t }
+
+// the entries visible at time t, in key order
+pub open spec fn live_seq<K: ExpiredKey, V>(s: Seq<Entity<K, V>>, t: u64) -> Seq<Entity<K, V>>
+    decreases s.len()
+{
+    if s.len() == 0 { s } else {
+        let r = live_seq(s.drop_last(), t);
+        if is_live(s.last(), t) { r.push(s.last()) } else { r }
+    }
+}
+
+// removing an entry that has expired by time t changes no view at any time t2 >= t
+pub proof fn lemma_live_remove<K: ExpiredKey, V>(s: Seq<Entity<K, V>>, q: int, t: u64, t2: u64)
+    requires 0 <= q < s.len(), !is_live(s[q], t), t2 >= t,
+    ensures live_seq(s.remove(q), t2) == live_seq(s, t2),
+    decreases s.len(),
+{
+    if q == s.len() - 1 {
+        assert(s.remove(q) =~= s.drop_last());
+    } else {
+        assert(s.remove(q).drop_last() =~= s.drop_last().remove(q));
+        assert(s.remove(q).last() == s.last());
+        lemma_live_remove(s.drop_last(), q, t, t2);
+    }
+}
+
+// value of the greatest entry with key < probe in a key-sorted sequence, or the default
+pub open spec fn pred_val<K: Ord, V>(s: Seq<Entity<K, V>>, key: K, d: V) -> V
+    decreases s.len()
+{
+    if s.len() == 0 { d } else if key_lt(s.last().key, key) { s.last().val } else { pred_val(s.drop_last(), key, d) }
+}
+
+// if position w-1 is live and below the probe and nothing from w on is below the probe, the live view's
+// predecessor of the probe is the entry at w-1; if w == 0 there is none
+pub proof fn lemma_pred_of_live<K: ExpiredKey, V>(s: Seq<Entity<K, V>>, t: u64, key: K, d: V, w: int)
+    requires
+        0 <= w <= s.len(),
+        forall|q: int| w <= q < s.len() ==> !key_lt(#[trigger] s[q].key, key),
+        w > 0 ==> is_live(s[w - 1], t) && key_lt(s[w - 1].key, key),
+    ensures
+        pred_val(live_seq(s, t), key, d) == (if w == 0 { d } else { s[w - 1].val }),
+    decreases s.len(),
+{
+    if s.len() == 0 {
+    } else if w == s.len() {
+        assert(live_seq(s, t) == live_seq(s.drop_last(), t).push(s.last()));
+        assert(live_seq(s, t).last() == s.last());
+    } else {
+        let s1 = s.drop_last();
+        assert(!key_lt(s.last().key, key));
+        assert forall|q: int| w <= q < s1.len() implies !key_lt(#[trigger] s1[q].key, key) by { assert(s1[q] == s[q]); }
+        if w > 0 { assert(s1[w - 1] == s[w - 1]); }
+        lemma_pred_of_live(s1, t, key, d, w);
+        if is_live(s.last(), t) {
+            let r = live_seq(s1, t);
+            assert(live_seq(s, t) == r.push(s.last()));
+            assert(r.push(s.last()).drop_last() =~= r);
+        }
+    }
+}
+
+// what lazy expiry below the anchor node n may change: only expired entries inside n's left (resp. right)
+// subtree disappear; everything outside keeps its place relative to n
+pub open spec fn expire_rel<K: ExpiredKey, V>(b1: Buf<K, V>, g1: G, b0: Buf<K, V>, g0: G, n: int, time: u64, left: bool) -> bool {
+    let e1 = ents(b1, g1); let e0 = ents(b0, g0);
+    &&& in_tree(b1, g1, n) && b1[n].entity == b0[n].entity
+    &&& forall|t2: u64| t2 >= time ==> #[trigger] live_seq(e1, t2) == live_seq(e0, t2)
+    &&& left ==> {
+            &&& g1.ng[n].a == g0.ng[n].a
+            &&& g1.ng[n].pos <= g0.ng[n].pos
+            &&& e1.subrange(0, g1.ng[n].a) == e0.subrange(0, g0.ng[n].a)
+            &&& e1.subrange(g1.ng[n].pos, e1.len() as int) == e0.subrange(g0.ng[n].pos, e0.len() as int)
+        }
+    &&& !left ==> {
+            &&& g1.ng[n].pos == g0.ng[n].pos
+            &&& g1.ng[n].b <= g0.ng[n].b
+            &&& e1.subrange(0, g1.ng[n].pos + 1) == e0.subrange(0, g0.ng[n].pos + 1)
+            &&& e1.subrange(g1.ng[n].b, e1.len() as int) == e0.subrange(g0.ng[n].b, e0.len() as int)
+        }
+}
+
+
+// search window for "strictly less": left of it everything is below the probe, right of it nothing is
+pub open spec fn window_lt<K: Ord, V>(buf: Buf<K, V>, g: G, key: K, wa: int, wb: int) -> bool {
+    &&& 0 <= wa <= wb <= g.ord.len()
+    &&& forall|q: int| 0 <= q < wa ==> key_lt(#[trigger] ents(buf, g)[q].key, key)
+    &&& forall|q: int| wb <= q < g.ord.len() ==> !key_lt(#[trigger] ents(buf, g)[q].key, key)
+}
+
+pub proof fn lemma_window_lt_step<K: Ord, V>(buf: Buf<K, V>, g: G, root: u32, key: K, i: int)
+    requires
+        ord_laws::<K>(), sinv(buf, g, root), !in_tree(buf, g, 0), in_tree(buf, g, i),
+        window_lt(buf, g, key, g.ng[i].a, g.ng[i].b),
+    ensures
+        !key_lt(buf[i].entity.key, key) ==> window_lt(buf, g, key, g.ng[i].a, g.ng[i].pos),
+        key_lt(buf[i].entity.key, key) ==> window_lt(buf, g, key, g.ng[i].pos + 1, g.ng[i].b),
+        0 <= g.ng[i].a <= g.ng[i].pos < g.ng[i].b <= g.ord.len(),
+        ents(buf, g)[g.ng[i].pos] == buf[i].entity,
+        g.ng.len() == buf.len(), buf.len() < EMPTY_REF,
+{
+    reveal(sinv); reveal(sorted);
+    assert(node_ok(buf, g, root, i));
+    let p = g.ng[i].pos;
+    let e = ents(buf, g);
+    assert(g.ord[p] as int == i);
+    if !key_lt(buf[i].entity.key, key) {
+        assert forall|q: int| p <= q < g.ord.len() implies !key_lt(#[trigger] e[q].key, key) by {
+            if q > p {
+                assert(g.ord[q] != 0u32) by { assert(g.ng[g.ord[q] as int].pos == q); }
+                assert(key_lt(buf[g.ord[p] as int].entity.key, buf[g.ord[q] as int].entity.key));
+            }
+        }
+    }
+    if key_lt(buf[i].entity.key, key) {
+        assert forall|q: int| 0 <= q < p + 1 implies key_lt(#[trigger] e[q].key, key) by {
+            if q < p {
+                assert(g.ord[q] != 0u32) by { assert(g.ng[g.ord[q] as int].pos == q); }
+                assert(key_lt(buf[g.ord[q] as int].entity.key, buf[g.ord[p] as int].entity.key));
+            }
+        }
+    }
+}
+
+// after lazy expiry below the anchor n the window is the (new) range of n's left / right subtree
+pub proof fn lemma_window_after_expire<K: ExpiredKey, V>(b1: Buf<K, V>, g1: G, r1: u32, b0: Buf<K, V>, g0: G, r0: u32, n: int, time: u64, key: K, left: bool)
+    requires
+        sinv(b1, g1, r1), sinv(b0, g0, r0), in_tree(b0, g0, n),
+        expire_rel(b1, g1, b0, g0, n, time, left),
+        left ==> window_lt(b0, g0, key, g0.ng[n].a, g0.ng[n].pos),
+        !left ==> window_lt(b0, g0, key, g0.ng[n].pos + 1, g0.ng[n].b),
+    ensures
+        left ==> window_lt(b1, g1, key, g1.ng[n].a, g1.ng[n].pos),
+        !left ==> window_lt(b1, g1, key, g1.ng[n].pos + 1, g1.ng[n].b),
+        !left ==> ents(b1, g1)[g1.ng[n].pos] == ents(b0, g0)[g0.ng[n].pos],
+{
+    reveal(sinv);
+    assert(node_ok(b1, g1, r1, n)); assert(node_ok(b0, g0, r0, n));
+    let e1 = ents(b1, g1); let e0 = ents(b0, g0);
+    if left {
+        let a = g1.ng[n].a; let p1 = g1.ng[n].pos; let p0 = g0.ng[n].pos;
+        assert forall|q: int| 0 <= q < a implies key_lt(#[trigger] e1[q].key, key) by {
+            assert(e1.subrange(0, a)[q] == e0.subrange(0, a)[q]);
+        }
+        assert(e1.len() - p1 == e0.len() - p0) by { assert(e1.subrange(p1, e1.len() as int).len() == e0.subrange(p0, e0.len() as int).len()); }
+        assert forall|q: int| p1 <= q < e1.len() implies !key_lt(#[trigger] e1[q].key, key) by {
+            assert(e1.subrange(p1, e1.len() as int)[q - p1] == e0.subrange(p0, e0.len() as int)[q - p1]);
+            assert(!key_lt(e0[q - p1 + p0].key, key));
+        }
+    } else {
+        let p = g1.ng[n].pos; let b1e = g1.ng[n].b; let b0e = g0.ng[n].b;
+        assert forall|q: int| 0 <= q < p + 1 implies key_lt(#[trigger] e1[q].key, key) by {
+            assert(e1.subrange(0, p + 1)[q] == e0.subrange(0, p + 1)[q]);
+        }
+        assert(e1.subrange(0, p + 1)[p] == e0.subrange(0, p + 1)[p]);
+        assert(e1.len() - b1e == e0.len() - b0e) by { assert(e1.subrange(b1e, e1.len() as int).len() == e0.subrange(b0e, e0.len() as int).len()); }
+        assert forall|q: int| b1e <= q < e1.len() implies !key_lt(#[trigger] e1[q].key, key) by {
+            assert(e1.subrange(b1e, e1.len() as int)[q - b1e] == e0.subrange(b0e, e0.len() as int)[q - b1e]);
+            assert(!key_lt(e0[q - b1e + b0e].key, key));
+        }
+    }
+}
+
 // exact effect of rotate_left(x) on links, root and ghost ranges
 pub open spec fn rot_left_rel<K, V>(b1: Buf<K, V>, g1: G, r1: u32, b0: Buf<K, V>, g0: G, r0: u32, x: int) -> bool {
     let y = b0[x].right;
@@ -2303,6 +2479,230 @@ impl<K: Copy + Default, V: Clone + Default> Pool<K, V> {
     {
         self.unused.push(index)
     }
+}
+
+
+impl<K: ExpiredKey + Default, V: Copy + Default> MapTree<K, V> {
+    #[inline]
+    pub(super) fn expire_left(&mut self, n_index: u32, time: u64) -> (r: u32)
+        requires
+            ord_laws::<K>(),
+            wf(old(self).store.buffer@, old(self).g@, old(self).root, old(self).store.unused@),
+            in_tree(old(self).store.buffer@, old(self).g@, n_index as int),
+        ensures
+            wf(final(self).store.buffer@, final(self).g@, final(self).root, final(self).store.unused@),
+            expire_rel(final(self).store.buffer@, final(self).g@, old(self).store.buffer@, old(self).g@, n_index as int, time, true),
+            r == final(self).store.buffer@[n_index as int].left,
+            r != EMPTY_REF ==> in_tree(final(self).store.buffer@, final(self).g@, r as int) && is_live(final(self).store.buffer@[r as int].entity, time),
+    {
+        proof { lemma_links(self.store.buffer@, self.g@, self.root, n_index as int); }
+        let mut index = self.node(n_index).left;
+        proof {
+            let e0 = ents(self.store.buffer@, self.g@);
+            assert(e0.subrange(0, self.g@.ng[n_index as int].a) == e0.subrange(0, self.g@.ng[n_index as int].a));
+        }
+
+        while index != EMPTY_REF
+            invariant
+                ord_laws::<K>(),
+                wf(self.store.buffer@, self.g@, self.root, self.store.unused@),
+                expire_rel(self.store.buffer@, self.g@, old(self).store.buffer@, old(self).g@, n_index as int, time, true),
+                index == self.store.buffer@[n_index as int].left,
+            decreases self.g@.ng[n_index as int].pos - self.g@.ng[n_index as int].a,
+        {
+            proof {
+                lemma_links(self.store.buffer@, self.g@, self.root, n_index as int);
+                lemma_links(self.store.buffer@, self.g@, self.root, index as int);
+            }
+            let node = self.node(index);
+            if node.entity.key.expiration() > time {
+                return index;
+            }
+            let ghost s1 = (self.store.buffer@, self.g@, self.root);
+            self.delete_index(index);
+            proof {
+                let e1 = ents(s1.0, s1.1); let e2 = ents(self.store.buffer@, self.g@);
+                let q = s1.1.ng[index as int].pos;
+                reveal(sinv);
+                assert(node_ok(s1.0, s1.1, s1.2, n_index as int));
+                assert(node_ok(s1.0, s1.1, s1.2, index as int));
+                assert(e1[q] == s1.0[index as int].entity) by { assert(s1.1.ord[q] as int == index as int); }
+                assert forall|t2: u64| t2 >= time implies #[trigger] live_seq(e2, t2) == live_seq(ents(old(self).store.buffer@, old(self).g@), t2) by {
+                    lemma_live_remove(e1, q, time, t2);
+                }
+                let a = s1.1.ng[n_index as int].a; let pn = s1.1.ng[n_index as int].pos;
+                assert(e2.subrange(0, a) =~= e1.subrange(0, a));
+                assert(e2.subrange(pn - 1, e2.len() as int) =~= e1.subrange(pn, e1.len() as int));
+                lemma_links(self.store.buffer@, self.g@, self.root, n_index as int);
+            }
+            index = self.node(n_index).left;
+        }
+        index
+    }
+    #[inline]
+    pub(super) fn expire_right(&mut self, n_index: u32, time: u64) -> (r: u32)
+        requires
+            ord_laws::<K>(),
+            wf(old(self).store.buffer@, old(self).g@, old(self).root, old(self).store.unused@),
+            in_tree(old(self).store.buffer@, old(self).g@, n_index as int),
+        ensures
+            wf(final(self).store.buffer@, final(self).g@, final(self).root, final(self).store.unused@),
+            expire_rel(final(self).store.buffer@, final(self).g@, old(self).store.buffer@, old(self).g@, n_index as int, time, false),
+            r == final(self).store.buffer@[n_index as int].right,
+            r != EMPTY_REF ==> in_tree(final(self).store.buffer@, final(self).g@, r as int) && is_live(final(self).store.buffer@[r as int].entity, time),
+    {
+        proof { lemma_links(self.store.buffer@, self.g@, self.root, n_index as int); }
+        let mut index = self.node(n_index).right;
+        proof {
+            let e0 = ents(self.store.buffer@, self.g@);
+            assert(e0.subrange(0, self.g@.ng[n_index as int].pos + 1) == e0.subrange(0, self.g@.ng[n_index as int].pos + 1));
+        }
+
+        while index != EMPTY_REF
+            invariant
+                ord_laws::<K>(),
+                wf(self.store.buffer@, self.g@, self.root, self.store.unused@),
+                expire_rel(self.store.buffer@, self.g@, old(self).store.buffer@, old(self).g@, n_index as int, time, false),
+                index == self.store.buffer@[n_index as int].right,
+            decreases self.g@.ng[n_index as int].b - self.g@.ng[n_index as int].pos,
+        {
+            proof {
+                lemma_links(self.store.buffer@, self.g@, self.root, n_index as int);
+                lemma_links(self.store.buffer@, self.g@, self.root, index as int);
+            }
+            let node = self.node(index);
+            if node.entity.key.expiration() > time {
+                return index;
+            }
+            let ghost s1 = (self.store.buffer@, self.g@, self.root);
+            self.delete_index(index);
+            proof {
+                let e1 = ents(s1.0, s1.1); let e2 = ents(self.store.buffer@, self.g@);
+                let q = s1.1.ng[index as int].pos;
+                reveal(sinv);
+                assert(node_ok(s1.0, s1.1, s1.2, n_index as int));
+                assert(node_ok(s1.0, s1.1, s1.2, index as int));
+                assert(e1[q] == s1.0[index as int].entity) by { assert(s1.1.ord[q] as int == index as int); }
+                assert forall|t2: u64| t2 >= time implies #[trigger] live_seq(e2, t2) == live_seq(ents(old(self).store.buffer@, old(self).g@), t2) by {
+                    lemma_live_remove(e1, q, time, t2);
+                }
+                let bn = s1.1.ng[n_index as int].b; let pn = s1.1.ng[n_index as int].pos;
+                assert(e2.subrange(0, pn + 1) =~= e1.subrange(0, pn + 1));
+                assert(e2.subrange(bn - 1, e2.len() as int) =~= e1.subrange(bn, e1.len() as int));
+                lemma_links(self.store.buffer@, self.g@, self.root, n_index as int);
+            }
+            index = self.node(n_index).right;
+        }
+        index
+    }
+
+    #[inline]
+    pub(super) fn expire_root(&mut self, time: u64) -> (r: u32)
+        requires
+            ord_laws::<K>(),
+            wf(old(self).store.buffer@, old(self).g@, old(self).root, old(self).store.unused@),
+        ensures
+            wf(final(self).store.buffer@, final(self).g@, final(self).root, final(self).store.unused@),
+            forall|t2: u64| t2 >= time ==> #[trigger] live_seq(ents(final(self).store.buffer@, final(self).g@), t2) == live_seq(ents(old(self).store.buffer@, old(self).g@), t2),
+            r == final(self).root,
+            r != EMPTY_REF ==> in_tree(final(self).store.buffer@, final(self).g@, r as int) && is_live(final(self).store.buffer@[r as int].entity, time),
+    {
+        let mut index = self.root;
+
+        while index != EMPTY_REF
+            invariant
+                ord_laws::<K>(),
+                wf(self.store.buffer@, self.g@, self.root, self.store.unused@),
+                forall|t2: u64| t2 >= time ==> #[trigger] live_seq(ents(self.store.buffer@, self.g@), t2) == live_seq(ents(old(self).store.buffer@, old(self).g@), t2),
+                index == self.root,
+            decreases self.g@.ord.len(),
+        {
+            proof { reveal(sinv); }
+            let node = self.node(index);
+            if node.entity.key.expiration() > time {
+                return index;
+            }
+            let ghost s1 = (self.store.buffer@, self.g@, self.root);
+            self.delete_index(index);
+            proof {
+                let e1 = ents(s1.0, s1.1); let e2 = ents(self.store.buffer@, self.g@);
+                let q = s1.1.ng[index as int].pos;
+                reveal(sinv);
+                assert(e1[q] == s1.0[index as int].entity) by { assert(s1.1.ord[q] as int == index as int); }
+                assert forall|t2: u64| t2 >= time implies #[trigger] live_seq(e2, t2) == live_seq(ents(old(self).store.buffer@, old(self).g@), t2) by {
+                    lemma_live_remove(e1, q, time, t2);
+                }
+                assert(e2.len() == e1.len() - 1);
+            }
+            index = self.root;
+        }
+        index
+    }
+
+
+    // KeyExpTree::search_first_less
+    #[inline]
+    fn search_first_less_t(&mut self, time: u64, default: V, key: K) -> (r: V)
+        requires
+            ord_laws::<K>(),
+            wf(old(self).store.buffer@, old(self).g@, old(self).root, old(self).store.unused@),
+        ensures
+            wf(final(self).store.buffer@, final(self).g@, final(self).root, final(self).store.unused@),
+            forall|t2: u64| t2 >= time ==> #[trigger] live_seq(ents(final(self).store.buffer@, final(self).g@), t2) == live_seq(ents(old(self).store.buffer@, old(self).g@), t2),
+            r == pred_val(live_seq(ents(old(self).store.buffer@, old(self).g@), time), key, default),
+    {
+        let mut index = self.expire_root(time);
+        let mut result = default;
+        let ghost mut wa = 0int;
+        let ghost mut wb = self.g@.ord.len() as int;
+        proof { reveal(sinv); }
+        while index != EMPTY_REF
+            invariant
+                ord_laws::<K>(),
+                wf(self.store.buffer@, self.g@, self.root, self.store.unused@),
+                forall|t2: u64| t2 >= time ==> #[trigger] live_seq(ents(self.store.buffer@, self.g@), t2) == live_seq(ents(old(self).store.buffer@, old(self).g@), t2),
+                window_lt(self.store.buffer@, self.g@, key, wa, wb),
+                index == EMPTY_REF ==> wa == wb,
+                index != EMPTY_REF ==> in_tree(self.store.buffer@, self.g@, index as int) && wa == self.g@.ng[index as int].a && wb == self.g@.ng[index as int].b
+                    && is_live(self.store.buffer@[index as int].entity, time),
+                wa == 0 ==> result == default,
+                wa > 0 ==> is_live(ents(self.store.buffer@, self.g@)[wa - 1], time) && key_lt(ents(self.store.buffer@, self.g@)[wa - 1].key, key) && result == ents(self.store.buffer@, self.g@)[wa - 1].val,
+            decreases wb - wa,
+        {
+            proof { lemma_window_lt_step(self.store.buffer@, self.g@, self.root, key, index as int); }
+            let ghost s1 = (self.store.buffer@, self.g@, self.root);
+            let entity = self.node(index).entity;
+            match entity.key.cmp(&key) {
+                Ordering::Less => {
+                    result = entity.val;
+                    let ghost n = index as int;
+                    index = self.expire_right(index, time);
+                    proof {
+                        lemma_window_after_expire(self.store.buffer@, self.g@, self.root, s1.0, s1.1, s1.2, n, time, key, false);
+                        lemma_links(self.store.buffer@, self.g@, self.root, n);
+                        wa = self.g@.ng[n].pos + 1; wb = self.g@.ng[n].b;
+                    }
+                },
+                _ => {
+                    let ghost n = index as int;
+                    index = self.expire_left(index, time);
+                    proof {
+                        lemma_window_after_expire(self.store.buffer@, self.g@, self.root, s1.0, s1.1, s1.2, n, time, key, true);
+                        lemma_links(self.store.buffer@, self.g@, self.root, n);
+                        let e1 = ents(self.store.buffer@, self.g@); let e0 = ents(s1.0, s1.1);
+                        if wa > 0 { assert(e1.subrange(0, wa)[wa - 1] == e0.subrange(0, wa)[wa - 1]); }
+                        wb = self.g@.ng[n].pos;
+                    }
+                },
+            }
+        }
+        proof {
+            lemma_pred_of_live(ents(self.store.buffer@, self.g@), time, key, default, wa);
+        }
+
+        result
+    }
+
 }
 
 impl<K: Copy + Ord + Default, V: Clone + Default> MapTree<K, V> {
